@@ -31,7 +31,11 @@ OPNAMES = None
 # ties between the function bodies translated from the Rust source on every run (Gen/Fns.lean) and the hand-written models
 THEOREM_MODULES.append("Yarel.Props.FnsTie.VmSteps")
 REQUIRED_THEOREMS += ["vm_get_local_effect", "vm_get_local_panics", "vm_set_local_effect", "vm_jump_effect", "vm_jump_if_false_effect", "vm_loop_effect",
-                      "vm_equal_effect", "vm_binary_op_numbers", "vm_binary_op_type_error", "jump_roundtrip", "loop_roundtrip"]
+                      "vm_equal_effect", "vm_binary_op_numbers", "vm_binary_op_type_error", "jump_roundtrip", "loop_roundtrip",
+                      "inline_arms_match_the_bytecode_table", "vm_arm_constant_effect", "vm_arm_constant_panics", "vm_arm_pop_effect", "vm_arm_pop_empty",
+                      "vm_arm_copy_top_effect", "vm_arm_nil_effect"]
+THEOREM_MODULES.append("Yarel.Props.FnsTie.ScopeEnd")
+REQUIRED_THEOREMS += ["emit_scope_end_spec", "captured_slots_are_closed"]
 THEOREM_MODULES.append("Yarel.Props.FnsTie.Compiler")
 REQUIRED_THEOREMS += ['patch_jump_tie', 'emit_loop_tie', 'patch_offset_at_tie']
 
